@@ -504,3 +504,19 @@ class DropOldProposals:
         # class invariant of the power manager (C11): a component set with a stored target keeps its bucket
         bucket_kept="(CID in self._component_buckets) == old(CID in self._component_buckets)",
     )
+
+
+from pyvc.spec import Delta  # noqa: E402  pylint: disable=wrong-import-position
+
+
+@contract(f"{M}:Matryoshka.__init__")
+class MatryoshkaInit:
+    """C03 (expiry): the age limit drop_old_proposals compares with is the configured maximum age in seconds -
+    fractions of a second and whole days included - and a new resolver has no proposals and no targets."""
+    self_shape = Obj(f"{M}:Matryoshka")
+    shapes = dict(max_proposal_age=Delta)
+    modifies = ["self"]
+    ensures = dict(
+        age_limit_is_the_configured_age="self._max_proposal_age_sec == max_proposal_age.total_seconds()",
+        starts_empty="len(self._component_buckets) == 0 and len(self._target_power) == 0",
+    )
